@@ -226,6 +226,26 @@ func runC06(p *Prog, r *Report) {
 		}
 	}
 	c06R2(p, r)
+	// R6: no send on a closed channel. The per-session send queues of the UDP relays are closed (when a session ends) while their sender,
+	// the listener loop that enqueues datagrams from the network, keeps running. The lockset rule of C12-R1 (enqueue, close and table delete under the relay mutex,
+	// close and delete in one critical section) is exactly what keeps "send on closed channel" — a
+	// process-killing panic triggered by the next datagram of a client whose session just ended — out.
+	{
+		const r6 = "C06-R6"
+		sub := NewReport("C06", "quick")
+		c12R1(p, sub, discoverRelays(p))
+		r.Rule(r6, "no network datagram is sent on a closed channel: "+sub.RuleDocs["C12-R1"])
+		n6 := 0
+		for _, o := range sub.Obs {
+			if strings.Contains(o.Construct, "unregister-atomically") || strings.Contains(o.Construct, ":enqueue") || strings.Contains(o.Construct, "session-closure") {
+				o.Rule = r6
+				r.Obs = append(r.Obs, o)
+				n6++
+			}
+		}
+		r.Count("session_queue_obligations", n6)
+		r.Floor(r6, 10)
+	}
 	c06R3(p, r)
 	c06R4(p, r)
 	c06R5(p, r)
